@@ -1,11 +1,38 @@
 """C07 configuration (see lib/propcfg.py for the meaning of the keys)."""
 CFG = dict(
-    disabled=True,
     models=[("gen", "Gen_PanicSites"), ("model", "Arith"), ("model", "PanicSites")],
     proofs=[("proofs", "Arith_proofs"), ("proofs", "PanicSites_proofs")],
     extract="Extract_Arith", module="arith_model", driver="drv_C07.ml", ocaml_extra=["zhelpers.ml"],
-    trusted_base=[],
-    level_text="",
-    level_note="",
-    assumptions=[],
+    trusted_base=[
+        "Go semantics assumed by the primitives of coq/model/Arith.v: int64 wrap-around, truncated / and % (min/-1 wraps), shift counts >= 64 give 0 and negative counts panic, "
+        "slice/index bound checks, makeslice panics iff cap < 0 or 16*cap > 2^48 (linux/amd64 heap address bits), strings.Repeat panics iff count < 0 or len*count > MaxInt; `int` is 64 bits",
+        "the panic-site inventory gen/gen_panicsites.go is a syntactic over-approximation (explicit panic, / % << >> with non-constant right operand, slice and index expressions, "
+        "single-value type assertions, make with computed size, strings.Repeat); nil dereferences and panics inside library calls are not inventoried, only searched by the sweep",
+        "the classification coq/model/PanicSites.v (which check dominates each site) is a manual audit of the source; its classes Unreachable / FrontEnd / OtherProperty are not theorems",
+        "harness: fresh eval.State per program, extensions.Init(HasLoad, HasSave, restricted IO: exec/run are not registered), stdin = /dev/null, cwd = scratch directory, "
+        "debug.SetMemoryLimit(640 MiB) so that FreeMemory() stays in [2^28, 2^30] while the model is given 2^29",
+    ],
+    level_text="Proved in Coq, for ALL operands (no bound): the repaired integer operators + - * / % << >> & | ^ and range construction a:b never end in a Go run-time panic "
+               "(C07_int_ops_never_panic: value, language error or the memory guard); range index x[l:r] hands Go's slice expression bounds with 0 <= lo <= hi <= len or returns an error "
+               "(C07_slice_bounds_safe); x[i] and x[i]=v only index inside [0,len) (C07_index_safe, C07_index_assign_safe); array and string repeat never reach makeslice / strings.Repeat with a "
+               "size they reject (C07_repeat_never_panics); the memory guard is sound over the mathematical integers (C07_size_guard_sound); applyExtension's validation loop guarantees arity in "
+               "[MinArgs, MaxArgs] and, for every position with a declared type other than ANY, an argument of exactly that type after dereferencing and int->float promotion "
+               "(C07_apply_extension_validates). Each statement is REFUTED for the code as pinned (C07_refuted_pinned_*: 1/0, 1%0, 1<<-1, \"abc\"[-5:2], [1,2]*2^62, \"abc\"*6148914691236517206, "
+               "0:2^62, the wrapped guard product) and those witnesses are replayed on the real packages first. "
+               "'No Go panic from ANY program' is therefore proved for these modelled operations only. For the rest of eval/ object/ ast/ parser/ lexer/ repl/ every panic-capable site "
+               "(explicit panic, integer / % << >>, slice and index expressions, unchecked type assertions, make with a computed size, strings.Repeat) is inventoried from the source on every run and "
+               "must be covered by the audited classification, obligation C07_panic_sites_accounted by vm_compute (a new site breaks it by name); whether an inventoried site is reachable from "
+               "program text is DECIDED BY THE SWEEP, not by a theorem: type-directed programs with a wrong operand kind for every operator / builtin / control form, boundary operands, wild "
+               "grammar-generated programs, byte mutations of the shipped examples and tests, and every registered extension applied to every kind of value with 0..max+1 arguments, all evaluated "
+               "like repl.EvalOne under recover(); any panic other than the two guards is a failure with signature go-panic:<run-time error class>:<grol function> or ext-panic:<name>:<argument kinds>. "
+               "The model is tied to /repo by the correspondence (integer operator x operand pairs incl. all boundary values, slice/index/assignment triples exhaustive for len <= 6 and bounds in "
+               "[-8,8] plus int64 extremes, repeat/concat sizes, validation of random and of all registered extension signatures): model and implementation agree on every case.",
+    level_note="Trusted: Coq kernel, extraction (ExtrOcamlBasic), OCaml driver, Go harness, translator; axioms: none (Print Assumptions: closed). The evaluator as a whole is NOT modelled: "
+               "closures, environments, macros, printing, extension callbacks are covered by the inventory + sweep only. Float arithmetic cannot panic in Go and is not modelled. "
+               "Cmp (quote(1)==quote(2)) and the register file belong to C12 / C05 and are listed there.",
+    assumptions=[
+        "a memory limit below 2^48 bytes is configured (free <= max_alloc): with no GOMEMLIMIT a size that passes the guard can still make makeslice panic or the allocation fail fatally",
+        "container lengths are >= 0 and indices / counts are int64 values (the theorems quantify over all Z for the operands, over len >= 0 for lengths)",
+        "64-bit platform (int = int64); memory budget read once per guard call (the model's `free` is the better of the two FreeMemory() readings of MustBeOk)",
+    ],
 )
